@@ -129,6 +129,12 @@ def run(ctx):
                for u in ([0], [1, 0], [4], [5], [6, [0], [0]], [4, [0]], [6, [1, 1], [0]], [3, [], []], [2, []])
                for meta in ([], [[[], [], []]])
                for conds in ([], [[S("c"), [S("c"), S("x"), [[S("p"), [10]]], []]]], [[S("c"), [S("d"), S(""), [], []]]])]
+    # degenerate type restrictions: a userset restriction without relation name (first, or after another one), an
+    # empty type name, a wildcard of the empty type, a relation no type defines
+    for refs in ([[S("user"), [1, []], []]], [[S("user"), [0], []], [S("user"), [1, []], S("c")]], [[S(""), [0], []]], [[S(""), [2], []]],
+                 [[S("user"), [1, S("nope")], []]], [[S("user"), [1, []], []], [S("user"), [2], []]], []):
+        for u in ([1, 1], [4, [1, 1], [2, S("r")]], [5, [1, 1], [3, S("r"), S("r")]], [6, [2, S("q")], [1, 1]]):
+            models.append([S("1.1"), [[S("user"), [], []], [S("t"), [[S("r"), u]], [[[[S("r"), [refs, [], []]]], [], []]]]], []])
     for src in (False, True):
         for via in ("proto", "json"):
             tf.correspond_print(ctx, models, src, via, "degenerate")
